@@ -121,6 +121,18 @@ def pool_map(func, items, nproc=None, chunksize=1, fresh=False):
     return out
 
 
+def reset_ambient():
+    """Every task and every replay starts under a NEW default decimal context (what a thread other
+    than the importing one would see). Pool workers are forked partly from the main thread and
+    partly from the pool's handler thread, whose thread-local context is a fresh default: without
+    this reset the ambient context of a task would depend on which of the two forked it."""
+    import decimal
+    decimal.setcontext(decimal.Context(prec=28, rounding=decimal.ROUND_HALF_EVEN, Emin=-999999,
+                                       Emax=999999, capitals=1, clamp=0, flags=[],
+                                       traps=[decimal.InvalidOperation, decimal.DivisionByZero,
+                                              decimal.Overflow]))
+
+
 def in_fork(fn):
     """Run fn() in a fresh fork of this process and return its JSON-serialisable result. Used to
     keep the parent process pristine (it imports the library but never executes it)."""
@@ -163,6 +175,7 @@ CURRENT_TIER = None
 
 def _call_task(t):
     key, item = t
+    reset_ambient()
     func = _TASK_FUNCS[key]
     acc = func(item)
     if isinstance(acc, dict) and acc.get("bad"):
@@ -406,6 +419,7 @@ def run_replay(prop, path, module, quiet=False, task=False):
             return 1
         return 0
     load_tree()
+    reset_ambient()
     if task:
         bad, detail = module.replay_task(case)
     else:
